@@ -173,3 +173,28 @@ Section ScopeInfo.
     cbn. rewrite Hc, Hp. reflexivity.
   Qed.
 End ScopeInfo.
+
+Section ObjectDbProofs.
+  Variable isdig : N -> bool.
+  Hypothesis isdig_ascii : forall c, is_ascii_digit c = true -> isdig c = true.
+
+  Lemma scopes_roundtrip s :
+    wf_scopes s = true -> exists s', save_scopes isdig s = Some s' /\ load_scopes isdig s' = Some s.
+  Proof.
+    induction s as [|[k [ci pn]] r IH]; cbn; intros H; [eauto|].
+    apply andb_true_iff in H as [H1 H2]. apply andb_true_iff in H1 as [Hc Hp]. cbn in Hc, Hp.
+    destruct (scopeinfo_getstate_total isdig ci pn Hc Hp) as [st Est]. rewrite Est.
+    destruct (IH H2) as [r' [Es El]]. rewrite Es. eexists. split; [reflexivity|].
+    cbn. rewrite (scopeinfo_state isdig isdig_ascii ci pn st Hc Hp Est), El. reflexivity.
+  Qed.
+
+  Theorem objectdb_roundtrip d :
+    wf_db d = true -> exists d', save_db isdig d = Some d' /\ load_db isdig d' = Some d.
+  Proof.
+    induction d as [|[p s] r IH]; cbn; intros H; [eauto|].
+    apply andb_true_iff in H as [H1 H2]. cbn in H1.
+    destruct (scopes_roundtrip s H1) as [s' [Es El]]. rewrite Es.
+    destruct (IH H2) as [r' [Er Elr]]. rewrite Er. eexists. split; [reflexivity|].
+    cbn. rewrite El, Elr. reflexivity.
+  Qed.
+End ObjectDbProofs.
